@@ -107,6 +107,7 @@ def main():
             stats['max_concepts'] = max(stats['max_concepts'], nconc)
             if len(stats['samples']) < 2 and ncross:
                 stats['samples'].append({'b': b, 'n': table.n, 'm': table.m, 'rows': table.rows, 'tag': table.tag})
+    stats.update(rec.counts)
     print(json.dumps(stats))
 
 
